@@ -82,6 +82,25 @@ class LifeSystem:
         self.chan.script('/send', self._send)
         self.no_trace = no_trace
         self.errors = []
+        # a thread of the application that exists BEFORE the agent is started (so it never carries the agent's trace
+        # function): shutdown() may be called from it
+        import queue
+        self._other_q = queue.Queue()
+
+        def other_loop():
+            while True:
+                job = self._other_q.get()
+                if job is None:
+                    return
+                fn, box, done = job
+                try:
+                    fn()
+                except BaseException as ex:
+                    box['ex'] = ex
+                finally:
+                    done.set()
+        self._other = threading.Thread(target=other_loop, daemon=True)
+        self._other.start()
 
     def _poll(self, request):
         from deepproto.proto.poll.v1.poll_pb2 import PollResponse, ResponseType
@@ -89,11 +108,12 @@ class LifeSystem:
         self.polls += 1
         if self.poll_fail:
             raise fakes.FakeRpcError('unavailable')
-        if request.current_hash == 'h1':
-            return PollResponse(ts_nanos=1, current_hash='h1', response_type=ResponseType.NO_CHANGE)
+        cur = getattr(self, 'late_hash', 'h1')
+        if request.current_hash == cur:
+            return PollResponse(ts_nanos=1, current_hash=cur, response_type=ResponseType.NO_CHANGE)
         tp = TracePointConfig(ID='life', path=self.path.rsplit('/', 1)[-1], line_number=self.marks['beat'],
                               args={'fire_count': '-1', 'fire_period': '0', 'log_msg': 'beat {n}'})
-        return PollResponse(ts_nanos=1, current_hash='h1', response=[tp], response_type=ResponseType.UPDATE)
+        return PollResponse(ts_nanos=1, current_hash=cur, response=[tp], response_type=ResponseType.UPDATE)
 
     def _send(self, request):
         n = int.from_bytes(request.ID, 'big')
@@ -164,12 +184,25 @@ class LifeSystem:
         def flush():
             first.set()
             threading.Timer(0.25, second.set).start()
+            if getattr(self, 'late_poll', False):
+                # the poll timer fires while shutdown drains: the service has a NEW configuration by now
+                def late():
+                    time.sleep(0.05)
+                    self.late_hash = 'h2'
+                    try:
+                        self.deep.poll.poll()
+                    except BaseException:
+                        pass            # refused visibly (the task handler is closed): fine
+                threading.Thread(target=late).start()
             return orig()
         self.deep.task_handler.flush = flush
         self._release = (first, second)
 
-    def shutdown(self, failing):
-        """failing: set of step numbers (2 = pending deliveries fail, 3 = service failing, 3+i = plugin i raises)."""
+    def shutdown(self, failing, late_poll=False, other_thread=False):
+        """failing: set of step numbers (2 = pending deliveries fail, 3 = service failing, 3+i = plugin i raises).
+        late_poll: a poll answer with a new configuration arrives while the drain is waiting; other_thread: shutdown()
+        is called from another thread than the one that started the agent."""
+        self.late_poll = late_poll
         if self.deep.started:
             if 2 in failing:
                 self.pending_snapshot()
@@ -183,7 +216,15 @@ class LifeSystem:
             for p in self.plugins:
                 del p.calls[:]
         try:
-            self.deep.shutdown()
+            if other_thread:
+                box, done = {}, threading.Event()
+                self._other_q.put((self.deep.shutdown, box, done))
+                if not done.wait(60):
+                    raise RuntimeError('shutdown on the other thread did not return')
+                if 'ex' in box:
+                    raise box['ex']
+            else:
+                self.deep.shutdown()
             return None
         except BaseException as ex:
             return repr(ex)
@@ -195,7 +236,11 @@ class LifeSystem:
 
     def project(self):
         timer = self.deep.poll.timer
+        box, done = {}, threading.Event()
+        self._other_q.put((lambda: box.setdefault('hook', sys.gettrace()), {}, done))
+        done.wait(10)
         return {'sysTrace': self.hook_name(sys.gettrace()), 'thrTrace': self.hook_name(threading.gettrace()),
+                'otherHook': self.hook_name(box.get('hook', 'missing')),
                 'started': bool(self.deep.started),
                 'pollAlive': bool(timer is not None and timer.thread.is_alive()),
                 'pending': getattr(self, 'pending_at_return', 0),
@@ -203,6 +248,7 @@ class LifeSystem:
                                      if any(c[0] == 'shutdown' for c in p.calls))}
 
     def close(self):
+        self._other_q.put(None)
         try:
             if self.deep.poll.timer is not None:
                 self.deep.poll.timer.stop()
